@@ -4,7 +4,7 @@ Subjects as pure sequential state machines (properties C10 / C13), mirroring the
   src/subjects/subject.rs            `observers` (serial ↦ Observer), `serial`
   src/subjects/behavior_subject.rs   `last_item`, `last_error`
   src/subjects/replay_subject.rs     `items`, `was_error`, `was_completed`
-  src/subjects/async_subject.rs      = Subject behind `take_last(1)` (src/operators/take_last.rs)
+  src/subjects/async_subject.rs      `last_item`, `ended` (the subscriber itself is registered in the inner Subject)
 and the Observer semantics of src/observer.rs (a terminal is delivered once and ends `next`;
 `unsubscribe` clears the callbacks and runs `fn_on_unsubscribe` once).
 
@@ -24,8 +24,11 @@ inductive Kind where
   | async
 deriving DecidableEq, Repr, Inhabited
 
+/-- the test subscriber's own `Observer` is what sits in the inner Subject's map (no forwarder in between):
+    plain Subject, and AsyncSubject (`subject.observable().inner_subscribe(s)`, async_subject.rs) -/
 def Kind.isPlain : Kind → Bool
   | .plain => true
+  | .async => true
   | _ => false
 
 def Kind.isReplay : Kind → Bool
@@ -40,10 +43,16 @@ inductive Call where
   | complete
 deriving DecidableEq, Repr, Inhabited
 
+/-- AsyncSubject.ended (async_subject.rs `enum Ended`) -/
+inductive Ended where
+  | completed
+  | failed (e : Nat)
+deriving DecidableEq, Repr, Inhabited
+
 /-- Everything that belongs to one `subscribe` call: the test subscriber `o` itself and the private
     observer the derived subjects put between the inner `Subject` and `o`
-    (behavior / replay: the forwarding `Observer` made by `subject.observable().subscribe(..)`;
-     async: the `take_last` observer made by `sctl.new_observer`).  For `plain` there is no inner observer:
+    (behavior / replay: the forwarding `Observer` made by `subject.observable().subscribe(..)`).
+    For `plain` and `async` there is no inner observer:
     `o` itself sits in the map and `inHook` is the serial captured by `o`'s own `fn_on_unsubscribe`. -/
 structure ObsSt where
   seen : Bool := false          -- `Observer::new` has happened for this id
@@ -52,19 +61,18 @@ structure ObsSt where
   hook : Bool := false          -- o.fn_on_unsubscribe is `Some`
   inAlive : Bool := false       -- inner observer's fn_next present
   inHook : Option Nat := none   -- serial removed by the registered observer's fn_on_unsubscribe (`None` once it ran)
-  armed : Bool := false         -- behavior/replay: `sbsc` is `Some` and its fn_unsubscribe not yet taken;
-                                -- async: the controller's `unscribers` still holds the take_last observer
-  buf : List Data := []         -- take_last's VecDeque
+  armed : Bool := false         -- behavior/replay: `sbsc` is `Some` and its fn_unsubscribe not yet taken
 deriving DecidableEq, Repr, Inhabited
 
 structure State where
   observers : List (Nat × Nat) := []    -- Subject.observers: (serial, id), insertion ordered
   serial : Nat := 0                     -- Subject.serial
-  lastItem : Option Data := none        -- BehaviorSubject.last_item
+  lastItem : Option Data := none        -- BehaviorSubject.last_item / AsyncSubject.last_item
   lastError : Option Nat := none        -- BehaviorSubject.last_error
   items : List Data := []               -- ReplaySubject.items
   wasError : Option Nat := none         -- ReplaySubject.was_error
   wasCompleted : Bool := false          -- ReplaySubject.was_completed
+  ended : Option Ended := none          -- AsyncSubject.ended
   obs : Nat → ObsSt := fun _ => {}
 deriving Inhabited
 
@@ -85,45 +93,18 @@ def aliveOf (st : State) (o : Nat) : Bool := (st.obs o).alive
 def ObsSt.recv (r : ObsSt) (ev : Ev) : ObsSt :=
   { r with log := if r.alive then r.log ++ [ev] else r.log, alive := r.alive && !ev.isTerminal }
 
-/-- take_last.rs:38-43 with count = 1: push_back, pop_front when longer than count -/
-def pushLast (buf : List Data) (v : Data) : List Data :=
-  if (buf ++ [v]).length > 1 then (buf ++ [v]).drop 1 else buf ++ [v]
-
 /-- What the observer registered in the inner Subject does with an event (one callback start..return).
-  * plain: it is `o`.
+  * plain, async: it is `o`.
   * behavior / replay (behavior_subject.rs:79-85, replay_subject.rs:87-93): a fresh `Observer` whose callbacks
-    forward to `o`; its own terminal gate closes first.
-  * async (take_last.rs:37-57 + stream_controller.rs sink_error / sink_complete / finalize):
-    next buffers; error → `sink_error` (deliver if `o` subscribed, then `finalize`, which calls the
-    `unscribers` entry = the take_last observer's `unsubscribe`, whose fn_on_unsubscribe removes its serial from
-    the subject's map — the map has just been cleared by `Subject::error` and serials are never reused, so the
-    map is untouched; AsyncSubject installs no on_unsubscribe slot); complete → flush the buffer while `o` is
-    subscribed, `sink_complete` (forget the entry, deliver complete, `finalize` finds nothing left). -/
+    forward to `o`; its own terminal gate closes first. -/
 def recvK (k : Kind) (ev : Ev) (r : ObsSt) : ObsSt :=
   match k with
-  | .plain => r.recv ev
+  | .plain | .async => r.recv ev
   | .behavior _ | .replay =>
     { r with
       log := if r.inAlive && r.alive then r.log ++ [ev] else r.log
       alive := if r.inAlive then r.alive && !ev.isTerminal else r.alive
       inAlive := r.inAlive && !ev.isTerminal }
-  | .async =>
-    match ev with
-    | .next v => { r with buf := if r.inAlive then pushLast r.buf v else r.buf }
-    | .error e =>
-      { r with
-        log := if r.inAlive && r.alive then r.log ++ [.error e] else r.log
-        alive := if r.inAlive then false else r.alive
-        inAlive := false
-        armed := if r.inAlive then false else r.armed
-        inHook := if r.inAlive && r.armed then none else r.inHook }
-    | .complete =>
-      { r with
-        log := if r.inAlive && r.alive then r.log ++ r.buf.map .next ++ [.complete] else r.log
-        alive := if r.inAlive then false else r.alive
-        inAlive := false
-        armed := if r.inAlive then false else r.armed
-        inHook := if r.inAlive && !r.alive && r.armed then none else r.inHook }
 
 /-- `fetch_observers().into_iter().for_each(..)` (subject.rs:37-52): every observer of the snapshot, in order -/
 def deliver (k : Kind) (ev : Ev) : List (Nat × Nat) → (Nat → ObsSt) → (Nat → ObsSt)
@@ -158,8 +139,10 @@ def newWasCompleted (k : Kind) (ev : Ev) (old : Bool) : Bool :=
   | .replay, .complete => true              -- replay_subject.rs:37
   | _, _ => old
 
-/-- `next(v)` / `error(e)` / `complete()`: store (derived subjects), then `Subject::{next,error,complete}`:
-    snapshot the map, clear it on a terminal, call every observer of the snapshot. -/
+/-- `next(v)` / `error(e)` / `complete()`: store (behavior, replay), then `Subject::{next,error,complete}` on the
+    inner Subject: snapshot the map, clear it on a terminal, call every observer of the snapshot.
+    (For `.async` this is the inner `self.subject.{next,error,complete}`; the AsyncSubject's own methods are
+    `emitK` below.) -/
 def emit (k : Kind) (st : State) (ev : Ev) : State :=
   { st with
     lastItem := newLastItem k ev st.lastItem
@@ -169,6 +152,24 @@ def emit (k : Kind) (st : State) (ev : Ev) : State :=
     wasCompleted := newWasCompleted k ev st.wasCompleted
     observers := if ev.isTerminal then [] else st.observers
     obs := deliver k ev st.observers st.obs }
+
+/-- AsyncSubject::{next, error, complete} (async_subject.rs): `next` only stores, and nothing at all happens once
+    `ended` is set; `error` records, then `subject.error`; `complete` records, then `subject.next(last)` (if any),
+    then `subject.complete`.  The other kinds: `emit`. -/
+def emitK (k : Kind) (st : State) (ev : Ev) : State :=
+  match k with
+  | .async =>
+    if st.ended.isSome then st else
+    match ev with
+    | .next v => { st with lastItem := some v }
+    | .error e => emit .async { st with ended := some (.failed e) } (.error e)
+    | .complete =>
+      let st1 := { st with ended := some .completed }
+      let st2 := match st.lastItem with
+        | some v => emit .async st1 (.next v)
+        | none => st1
+      emit .async st2 .complete
+  | k => emit k st ev
 
 /-! ### subscribe -/
 
@@ -186,12 +187,17 @@ def register (st : State) (o : Nat) (r : ObsSt) : State :=
     observers := st.observers ++ [(st.serial + 1, o)]
     obs := upd st.obs o { r with inHook := some (st.serial + 1) } }
 
+/-- what a completed AsyncSubject hands a subscriber: the last item, if any, then `complete` -/
+def asyncHandover (last : Option Data) : List Ev :=
+  (match last with | some v => [.next v] | none => []) ++ [.complete]
+
 /-- `observable().subscribe(..)` up to and including the subject's `on_subscribe(len)` call site.
   * plain (subject.rs:61-93).
   * behavior (behavior_subject.rs:43-86): stored error → `s.error`, return; stored item → `s.next`, else
     `s.complete`, return; then (still subscribed) hook + forwarder registered, `sbsc` stored.
   * replay (replay_subject.rs:46-66 and ready_set_go.rs:12): hook, history snapshot, forwarder registered.
-  * async (take_last.rs:27-36): controller (hook = finalize), take_last observer registered. -/
+  * async (async_subject.rs `observable`): stored error → `s.error`; completed → `s.next(last)` (if any),
+    `s.complete`; otherwise `subject.observable().inner_subscribe(s)` = the plain registration. -/
 def subscribeA (k : Kind) (st : State) (o : Nat) : State × Pending :=
   if (st.obs o).seen then (st, {}) else
   match k with
@@ -211,8 +217,12 @@ def subscribeA (k : Kind) (st : State) (o : Nat) : State × Pending :=
     (register st o { seen := true, alive := true, hook := true, inAlive := true },
      { fresh := true, len := some (st.observers.length + 1), history := st.items })
   | .async =>
-    (register st o { seen := true, alive := true, hook := true, inAlive := true, armed := true },
-     { fresh := true, len := some (st.observers.length + 1) })
+    match st.ended with
+    | some (.failed e) => ({ st with obs := upd st.obs o { seen := true, log := [.error e] } }, {})
+    | some .completed => ({ st with obs := upd st.obs o { seen := true, log := asyncHandover st.lastItem } }, {})
+    | none =>
+      (register st o { seen := true, alive := true, hook := true },
+       { fresh := true, len := some (st.observers.length + 1) })
 
 /-- replay_subject.rs:70-84: the closure `f` of `ready_set_go`, run after the live subscription exists:
     `was_error` / `was_completed` are read NOW, the snapshot is replayed, then the stored terminal. -/
@@ -261,9 +271,8 @@ def subscribeB (k : Kind) (st : State) (o : Nat) (p : Pending) : State × Option
 
 /-- `Subscription::unsubscribe` of the handle returned to the test subscriber = `o.unsubscribe()`
     (observer.rs:53-60): clear the callbacks, run fn_on_unsubscribe, forget it.
-  * plain: the hook removes `serial` from the map and calls `on_unsubscribe(len)` (subject.rs:74-83).
+  * plain, async: the hook removes `serial` from the map and calls `on_unsubscribe(len)` (subject.rs:74-83).
   * behavior / replay: the hook unsubscribes `sbsc` (once: `armed`), i.e. the forwarder, whose hook does the above.
-  * async: the hook is `finalize`: calls and clears `unscribers` (the take_last observer's `unsubscribe`).
   Returns the argument of the `on_unsubscribe(len)` call if one is made.  No handle exists before
   `subscribe o`, so the call is ignored then. -/
 def unsubscribeN (k : Kind) (st : State) (o : Nat) : State × Option Nat :=
@@ -295,9 +304,9 @@ def Call.toEv? : Call → Option Ev
 def step (k : Kind) (st : State) : Call → State
   | .subscribe o => (subscribeB k (subscribeA k st o).1 o (subscribeA k st o).2).1
   | .unsubscribe o => (unsubscribeN k st o).1
-  | .next v => emit k st (.next v)
-  | .error e => emit k st (.error e)
-  | .complete => emit k st .complete
+  | .next v => emitK k st (.next v)
+  | .error e => emitK k st (.error e)
+  | .complete => emitK k st .complete
 
 def runFrom (k : Kind) (st : State) (cs : List Call) : State := cs.foldl (step k) st
 def run (k : Kind) (cs : List Call) : State := runFrom k (init k) cs
